@@ -1,6 +1,7 @@
 SPECIFICATION Spec
 CONSTANTS Contracts <- McContracts
  Sender = "U"
+ Creators = {}
  Slots <- McSlots
  InitBal <- McInitBal
  InitStor <- McInitStor
@@ -14,7 +15,8 @@ CONSTANTS Contracts <- McContracts
  DepthLimit = 1024
  DevS = FALSE
  DevG = FALSE
+ DevC = FALSE
 VIEW ViewNoHist
-INVARIANTS StaticIsNoop GasWithinSupplied DepthBound NoCrash JournalMarksOrdered
-PROPERTIES FailedFrameIsNoop OkKeepsEffects GasNeverGrows
+INVARIANTS StaticIsNoop GasWithinSupplied DepthBound NoCrash JournalMarksOrdered CodeOnlyByCreation
+PROPERTIES FailedFrameIsNoop OkKeepsEffects GasNeverGrows CollisionIsNoop
 CHECK_DEADLOCK FALSE
